@@ -65,6 +65,8 @@ pub(crate) struct ThetaHashTable {
 
     entries: Vec<u64>,
     num_entries: usize,
+    // false as soon as any value was offered, even if every hash was screened out by theta
+    is_empty: bool,
 }
 
 impl ThetaHashTable {
@@ -90,6 +92,7 @@ impl ThetaHashTable {
             hash_seed,
             entries,
             num_entries: 0,
+            is_empty: true,
         }
     }
 
@@ -101,6 +104,7 @@ impl ThetaHashTable {
         value.hash(&mut hasher);
         let (h1, _) = hasher.finish128();
         let hash = h1 >> 1; // To make it compatible with Java version
+        self.is_empty = false;
         if hash >= self.theta {
             return 0; // hash == 0 is reserved for empty slots
         }
@@ -268,6 +272,7 @@ impl ThetaHashTable {
         }
         self.entries.fill(0);
         self.num_entries = 0;
+        self.is_empty = true;
         self.theta = init_theta;
         self.lg_cur_size = init_lg_cur;
     }
@@ -284,7 +289,7 @@ impl ThetaHashTable {
 
     /// Check if empty
     pub fn is_empty(&self) -> bool {
-        self.num_entries == 0
+        self.is_empty
     }
 
     /// Get iterator over entries
